@@ -37,7 +37,8 @@ LEVEL_TEXT = ("Exploration: hundreds (quick) to thousands (thorough) of generate
               " Some directory entries are symbolic links to files stored elsewhere."
               " Slices of populations made of slices; chaining without intersection."
               " Extension filters given explicitly next to extension-less files."
-              " Populations built by the older constructor from a list of file names (lazy, and eager when the caller asks: every file exactly once at construction, never again); directories of extended-format files through from_eswc; population transforms whose outputs carry no source.")
+              " Populations built by the older constructor from a list of file names (lazy, and eager when the caller asks: every file exactly once at construction, never again); directories of extended-format files through from_eswc; population transforms whose outputs carry no source."
+              " A mapped function that maps over another population.")
 LEVEL_NOTE = ("'The i-th file' is the i-th entry of the library's own listing (Population.find_swcs), "
               "which must be a permutation of the layout's .swc files; the order of a directory walk "
               "is the operating system's. Population.map runs in worker processes and is decided at "
